@@ -146,9 +146,25 @@ class Lock:
 
 HOOK_FLAGS = "--cfg ohsl_verif"
 
+def link_repo():
+    """harness/Cargo.toml depends on ../.cache/repo: a symlink to /repo (or $VERIF_REPO for scratch worktrees)."""
+    link = os.path.join(CACHE, "repo")
+    want = os.path.realpath(REPO)
+    if not (os.path.islink(link) and os.path.realpath(link) == want):
+        try:
+            if os.path.islink(link) or os.path.exists(link): os.remove(link)
+        except OSError: pass
+        os.symlink(want, link)
+        # a different tree behind the same path: force cargo to look again
+        sh("touch %s/src/lib.rs" % want)
+    lock_src = os.path.join(want, "Cargo.lock")
+    if os.path.exists(lock_src):
+        shutil.copyfile(lock_src, os.path.join(HARNESS, "Cargo.lock"))
+
 def build_harness(profile="debug"):
     """(Re)build the executor against /repo's current working tree, hooks on."""
     with Lock("cargo"):
+        link_repo()
         flag = "--release" if profile == "release" else ""
         rc, out = sh("cargo build --offline %s 2>&1" % flag, timeout=900, cwd=HARNESS,
                      env={"RUSTFLAGS": HOOK_FLAGS})
@@ -160,10 +176,9 @@ def build_harness(profile="debug"):
 def coq_make(target, timeout=1500):
     """Build one .vo (and its dependencies) with the generated Makefile."""
     with Lock("coq"):
-        if not os.path.exists(os.path.join(COQDIR, "Makefile")):
-            rc, out = sh("coq_makefile -f _CoqProject -o Makefile", cwd=COQDIR, timeout=120)
-            if rc != 0:
-                return rc, out
+        rc, out = sh("./mkproject.sh", cwd=COQDIR, timeout=120)
+        if rc != 0:
+            return rc, out
         rc, out = sh("timeout %d make -j%d %s 2>&1" % (timeout, NPROC, target), cwd=COQDIR, timeout=timeout + 30)
     return rc, out
 
